@@ -244,7 +244,7 @@ theorem recvReq_re_irrel (cfg : Cfg) (s : Stream) (q : σ) (d : Bytes) (ea : Boo
 def pushFresh (s : Stream) (pid : Nat) (re : Bool) : Stream :=
   { s with buffer := [], receivingEnded := re, streamType := some 1, p := { s.p with pushId := some pid } }
 
-theorem uni_merge_push (hnb : NonBlocking o) (c : Conn σ) (ht : c.cfg.k.truncatedNoError = false)
+theorem uni_merge_push (c : Conn σ) (ht : c.cfg.k.truncatedNoError = false)
     (hsil : c.cfg.k.silentFrameNoEnd = false) (hlog : c.cfg.k.logDecode = false)
     {s : Stream} (hs : UniFresh s) (P r c2 : Bytes) (e : Bool) (hp : pullVarint P = some (1, r)) :
     UEq (uniSeq o c s P c2 e) (uniCore o c s (P ++ c2) e) := by
@@ -274,7 +274,7 @@ theorem uni_merge_push (hnb : NonBlocking o) (c : Conn σ) (ht : c.cfg.k.truncat
     dsimp only
     have hfr : Fresh (pushFresh s pid false) :=
       ⟨hs.fresh.frameSize, hs.fresh.frameType, hs.fresh.sessionId, hs.fresh.blocked, rfl, rfl⟩
-    have hm := merge o c.cfg hnb ht hsil hlog hfr c.q r' c2 e
+    have hm := merge o c.cfg ht hsil hlog hfr c.q r' c2 e
     have e1 := recvReq_shift o c.cfg (pushFresh s pid false) c.q [] r' false
     have e2 := recvReq_shift o c.cfg (pushFresh s pid e) c.q [] (r' ++ c2) e
     simp only [List.nil_append, pushFresh] at e1 e2 hm
@@ -892,7 +892,7 @@ theorem uni_merge_ctrl (c : Conn σ) {s : Stream} (hs : UniFresh s) (P r c2 : By
 
 /-- two consecutive deliveries on a fresh unidirectional stream = one delivery of the
     concatenation; `hctl`: a FIN is only considered on streams that are not the control stream -/
-theorem uni_merge (hnb : NonBlocking o) (hdec : DecAdditive o) (henc : EncAdditive o) (c : Conn σ)
+theorem uni_merge (hdec : DecAdditive o) (henc : EncAdditive o) (c : Conn σ)
     (ht : c.cfg.k.truncatedNoError = false) (hsil : c.cfg.k.silentFrameNoEnd = false)
     (hlog : c.cfg.k.logDecode = false) {s : Stream} (hs : UniFresh s) (P c2 : Bytes) (e : Bool)
     (hctl : e = false ∨ ∀ r, pullVarint (P ++ c2) ≠ some (0, r)) :
@@ -910,7 +910,7 @@ theorem uni_merge (hnb : NonBlocking o) (hdec : DecAdditive o) (henc : EncAdditi
       subst he
       exact uni_merge_ctrl o c hs P r c2 hp
     · by_cases h1 : t = 1
-      · subst h1; exact uni_merge_push o hnb c ht hsil hlog hs P r c2 e hp
+      · subst h1; exact uni_merge_push o c ht hsil hlog hs P r c2 e hp
       · by_cases h2 : t = 2
         · subst h2; exact uni_merge_enc o henc c hs P r c2 e hp
         · by_cases h3 : t = 3
@@ -1008,7 +1008,7 @@ theorem uniCore_nil_fresh (c : Conn σ) {s : Stream} (hs : UniFresh s) :
   congr
   all_goals first | exact h2.symm | exact h1.symm | (cases s; simp_all)
 
-theorem uniFeed_nofin (hnb : NonBlocking o) (hdec : DecAdditive o) (henc : EncAdditive o) (c : Conn σ)
+theorem uniFeed_nofin (hdec : DecAdditive o) (henc : EncAdditive o) (c : Conn σ)
     (ht : c.cfg.k.truncatedNoError = false) (hsil : c.cfg.k.silentFrameNoEnd = false)
     (hlog : c.cfg.k.logDecode = false) {s : Stream} (hs : UniFresh s) (chunks : List Bytes) :
     UEq (uniFeed o c s (chunks.map (·, false))) (uniCore o c s chunks.flatten false) := by
@@ -1028,9 +1028,9 @@ theorem uniFeed_nofin (hnb : NonBlocking o) (hdec : DecAdditive o) (henc : EncAd
       List.flatten_nil, List.append_nil]
     refine UEq.trans (UEq.uAndThen ih _) ?_
     rw [← uniSeq_eq]
-    exact uni_merge o hnb hdec henc c ht hsil hlog hs _ d false (.inl rfl)
+    exact uni_merge o hdec henc c ht hsil hlog hs _ d false (.inl rfl)
 
-theorem uniFeed_chunks (hnb : NonBlocking o) (hdec : DecAdditive o) (henc : EncAdditive o) (c : Conn σ)
+theorem uniFeed_chunks (hdec : DecAdditive o) (henc : EncAdditive o) (c : Conn σ)
     (ht : c.cfg.k.truncatedNoError = false) (hsil : c.cfg.k.silentFrameNoEnd = false)
     (hlog : c.cfg.k.logDecode = false) {s : Stream} (hs : UniFresh s) (chunks : List Bytes) (last : Bytes)
     (fin : Bool) (hctl : fin = false ∨ ∀ r, pullVarint (chunks.flatten ++ last) ≠ some (0, r)) :
@@ -1038,9 +1038,9 @@ theorem uniFeed_chunks (hnb : NonBlocking o) (hdec : DecAdditive o) (henc : EncA
         (uniCore o c s (chunks.flatten ++ last) fin) := by
   rw [uniFeed_append]
   simp only [uniFeed_single]
-  refine UEq.trans (UEq.uAndThen (uniFeed_nofin o hnb hdec henc c ht hsil hlog hs chunks) _) ?_
+  refine UEq.trans (UEq.uAndThen (uniFeed_nofin o hdec henc c ht hsil hlog hs chunks) _) ?_
   rw [← uniSeq_eq]
-  exact uni_merge o hnb hdec henc c ht hsil hlog hs _ last fin hctl
+  exact uni_merge o hdec henc c ht hsil hlog hs _ last fin hctl
 
 end
 end AQ.H3
